@@ -381,6 +381,9 @@ RULE = ("deterministic workflows (chain with store writes, fan-out/fan-in, retry
 from vmc.tables import _ROUND6 as _R6  # noqa: E402
 
 RULE += _R6["C12"]
+from vmc.tables import _ROUND7 as _R7  # noqa: E402
+
+RULE += _R7["C12"]
 
 
 
